@@ -386,6 +386,48 @@ def generators_on(ctx, st, spec, doc, quick):
                     st.reset()
 
 
+def resumed_elsewhere_on(ctx, st, spec, doc):
+    """iterate_children / iterate_descendants read the ambient filters once, when they are started: an iterator that
+    is started under one ambient setting and resumed under another yields what the specification says for the
+    setting it was started under - the pre-order descendants (the children) that pass that setting's filters"""
+    ns = all_nodes(doc.root)
+    tags = [n for n in ns if isinstance(n, TagNode)]
+    targets = [doc.root] + ([tags[len(tags) // 2]] if len(tags) > 2 else [])
+    settings = [AMBIENT[i] for i in (0, 1, 2, 4, 7, 8)]
+    for target in targets:
+        with altered_default_filters():
+            unfiltered = {"iterate_descendants": list(target.iterate_descendants()),
+                          "iterate_children": list(target.iterate_children())}
+        for (aname, alayers), (bname, blayers) in itertools.product(settings, settings):
+            if aname == bname:
+                continue
+            for gname in ("iterate_descendants", "iterate_children"):
+                for consumed in (1, 2, 3):
+                    case = {"doc": spec, "op": gname + " resumed under another ambient setting", "target": path_of(target),
+                            "started_under": aname, "resumed_under": bname, "consumed_before": consumed}
+                    ctx.count(1, "iterator started under one ambient setting, resumed under another")
+                    with st.client(alayers):
+                        preds = tuple(nodes.default_filters[-1])
+                        g = getattr(target, gname)()
+                        got = []
+                        for _ in range(consumed):
+                            try:
+                                got.append(next(g))
+                            except StopIteration:
+                                break
+                    with st.client(blayers):
+                        got.extend(g)
+                    del g
+                    with altered_default_filters():
+                        expected = [n for n in unfiltered[gname] if all(f(n) for f in preds)]
+                    if len(got) != len(expected) or any(x is not y for x, y in zip(got, expected)):
+                        ctx.fail("an iterator resumed under other ambient default filters does not yield what it yields "
+                                 "when consumed in one go", dict(case, got=[path_of(n) for n in got],
+                                                                expected=[path_of(n) for n in expected]), classify)
+                    if not st.view_ok():
+                        st.reset()
+
+
 # ------------------------------------------------------------------------------------------ part (c): insensitivity
 def paths_of(nodes_):
     return [path_of(n) for n in nodes_]
@@ -556,6 +598,8 @@ def run_spec(ctx, spec, quick, parts):
                 doc = make_doc(spec)
                 observers_on(ctx, st, spec, doc, quick)
                 generators_on(ctx, st, spec, doc, quick)
+                if spec.get("fixed"):
+                    resumed_elsewhere_on(ctx, st, spec, doc)
         if "insensitivity" in parts:
             insensitivity_on(ctx, spec, quick)
 
@@ -572,11 +616,11 @@ def run(ctx, args):
                 rep = json.load(f)
             case = rep.get("case") or {}
             if case.get("doc"):
-                spec = {"tree": tuple_tree(case["doc"]["tree"]), "route": case["doc"]["route"]}
+                spec = {"tree": tuple_tree(case["doc"]["tree"]), "route": case["doc"]["route"], "fixed": bool(case["doc"].get("fixed"))}
                 run_spec(ctx, spec, False, ("stack", "insensitivity"))
             return ctx.finish("replay of " + args.replay, replay_open=replay_open)
         quick = ctx.tier == "quick"
-        specs = [{"tree": FIXED, "route": "parse"}, {"tree": FIXED, "route": "api"}]
+        specs = [{"tree": FIXED, "route": "parse", "fixed": True}, {"tree": FIXED, "route": "api", "fixed": True}]
         for i in range(8 if quick else 200):
             specs.append({"tree": gen_el(ctx.rng, 2), "route": ctx.rng.choice(["parse", "api"])})
         for i, spec in enumerate(specs):
